@@ -457,8 +457,8 @@ func runHistCase(hc histCase, tmp string, verbose bool) {
 			continue
 		}
 		obs, xerr := extract(t.Extract, artifact, content)
-		if xerr != nil {
-			harnessError("%s: request %d: artifact emitted but the harness cannot read it: %v", label, n+1, xerr)
+		if xerr != nil && !unreadable(xerr) {
+			harnessError("%s: request %d: artifact emitted but the harness cannot open it: %v", label, n+1, xerr)
 			continue
 		}
 		viol := func(what, d string) {
@@ -472,6 +472,11 @@ func runHistCase(hc histCase, tmp string, verbose bool) {
 			run.Violation(key, fmt.Sprintf("%s: request %d (%s): %s", label, n+1, describeSteps(hc, n), d), replay())
 		}
 		ok := true
+		if xerr != nil {
+			// see runCase: success reported and no signature the independent reader can parse
+			ok = false
+			viol("emitted-artifact-without-readable-signature", fmt.Sprintf("relic reported success and wrote an artifact in which the independent reader finds no signature it can parse (%v)", xerr))
+		}
 		for _, o := range obs {
 			res.Obs = append(res.Obs, describe(o))
 		}
